@@ -366,6 +366,49 @@ pub fn run(rep: &Report) -> i32 {
             }
         });
     }
+    // (2c) an alias name declared a second time (the implementation lets the later declaration take over from
+    // there on; the book is silent): giving the second alias a fresh name instead, or replacing both aliases by their
+    // definitions, must give the same program
+    {
+        // {A} first alias, {B} second alias; uses of {A} come before the second declaration, uses of {B} after it
+        let templates = [
+            "type {A} = u8;\nfn f(x: {A}) -> {A} {\n    x\n}\ntype {B} = u16;\nfn main() {\n    let y: {B} = 300;\n    assert!(jet::eq_16(y, 300));\n    assert!(jet::eq_8(f(1), 1));\n}\n",
+            "type {A} = u8;\nfn f(p: ({A}, {A})) -> {A} {\n    let (a, b): ({A}, {A}) = p;\n    a\n}\ntype {B} = u16;\nfn g(p: ({B}, {B})) -> {B} {\n    let (a, b): ({B}, {B}) = p;\n    b\n}\nfn main() {\n    assert!(jet::eq_8(f((1, 2)), 1));\n    assert!(jet::eq_16(g((1, 300)), 300));\n}\n",
+            "type {A} = u8;\ntype Outer = ({A}, bool);\ntype {B} = u16;\nfn main() {\n    let o: Outer = (255, true);\n    let w: {B} = 65535;\n    let p: ({B}, bool) = (w, false);\n    let (n, c): ({B}, bool) = p;\n    assert!(jet::eq_16(n, 65535));\n}\n",
+            "type {A} = Option<u8>;\nfn f(x: {A}) -> u8 {\n    match x {\n        None => 0,\n        Some(v: u8) => v,\n    }\n}\ntype {B} = Either<u8, u16>;\nfn main() {\n    let e: {B} = Right(300);\n    let r: u16 = match e {\n        Left(a: u8) => 0,\n        Right(b: u16) => b,\n    };\n    assert!(jet::eq_16(r, 300));\n    assert!(jet::eq_8(f(Some(7)), 7));\n}\n",
+        ];
+        let defs = [("u8", "u16"), ("u8", "u16"), ("u8", "u16"), ("Option<u8>", "Either<u8, u16>")];
+        let names = ["Word", "Fee", "u8_x", "T", "Pair1"];
+        let mut variants: Vec<(String, String, String)> = vec![];
+        for (ti, t) in templates.iter().enumerate() {
+            let inlined: String = t
+                .lines()
+                .filter(|l| !(l.starts_with("type {A}") || l.starts_with("type {B}")))
+                .map(|l| format!("{}\n", l.replace("{A}", defs[ti].0).replace("{B}", defs[ti].1)))
+                .collect();
+            for n in names {
+                let fresh = t.replace("{A}", n).replace("{B}", &format!("{n}_second"));
+                let reused = t.replace("{A}", n).replace("{B}", n);
+                variants.push((format!("template {ti} alias {n}: fresh second name vs definitions inlined"), fresh.clone(), inlined.clone()));
+                variants.push((format!("template {ti} alias {n}: name declared twice vs fresh second name"), reused, fresh));
+            }
+        }
+        rep.set("alias_redeclaration_cases", json!(variants.len()));
+        for (label, a, b) in &variants {
+            rep.state();
+            rep.transition(1);
+            rep.eval(2);
+            rep.trace(2);
+            rep.nontrivial(1);
+            match (cmr_of(a), cmr_of(b)) {
+                (Ok(x), Ok(y)) if x == y => rep.class("accepted-equal-cmr"),
+                (Ok(_), Ok(_)) => rep.violation("C17:alias-name-changes-program", format!("{label}: the two variants compile to different programs"), json!({"kind": "compile", "program": a, "other": b, "expect": "accept", "observed": "different-cmr"})),
+                (Err(e), Ok(_)) => rep.violation("C17:alias-name-changes-acceptance", format!("{label}: first variant rejected ({e}), second accepted"), json!({"kind": "compile", "program": a, "other": b, "expect": "accept", "observed": "reject"})),
+                (Ok(_), Err(e)) => rep.violation("C17:alias-name-changes-acceptance", format!("{label}: first variant accepted, second rejected ({e})"), json!({"kind": "compile", "program": b, "other": a, "expect": "accept", "observed": "reject"})),
+                (Err(e1), Err(_)) => rep.machinery(format!("alias re-declaration template rejected in both variants: {e1}\n{a}")),
+            }
+        }
+    }
     // (3) parse trees equal after renaming back is implied by equal CMR; additionally the renamed program must parse
     let _ = simfony::parse::Program::parse_from_str(&base_text);
     rep.finish(
